@@ -137,7 +137,7 @@ def oracle_c12(script, ig, mg):
 
 def oracle_c16(script, ig, mg):
     fails = []
-    prim = [l for l in script if l.split()[0] not in ("cfg", "drain", "fsop", "lay", "crash")]
+    prim = primary_cmds(script)
     for i, a in enumerate(ig):
         if "panic" in a.line.split() or a.line.endswith("panic"):
             line = prim[i] if i < len(prim) else "?"
@@ -153,7 +153,7 @@ def oracle_c16(script, ig, mg):
 
 
 WRITE_WORDS = ("vote", "app", "trunc", "purge", "commit", "ud")
-NO_OUTPUT = ("cfg", "drain", "fsop", "lay", "crash")
+NO_OUTPUT = ("cfg", "drain", "fsop", "lay", "crash", "note")
 
 
 def primary_cmds(script):
@@ -313,7 +313,7 @@ def oracle_c15(script, ig, mg):
 
 
 def script_is_append(script, ig, gi):
-    prim = [l for l in script if l.split()[0] not in ("cfg", "drain", "fsop", "lay", "crash")]
+    prim = primary_cmds(script)
     return gi < len(prim) and prim[gi].startswith("app ")
 
 
@@ -798,6 +798,9 @@ def run_scripts(pid, P, scripts, tier, seed, search=True, stats=None):
         "distribution": stats or {},
     }
     return {"violations": violations, "known": known_hits, "coverage": cov}
+
+
+import crashprops  # noqa: E402,F401  (registers C03 C05 C10 C09)
 
 
 def run_property(pid, P, tier, seed):
